@@ -565,6 +565,8 @@ class C13(Property):
         spec_ok, detail = True, ""
         if obs["out"] is not None and drv["input_sorted"] and not drv["prov"]:
             spec_ok, detail = False, f"a merged hit is not the span of close same-profile input hits: {obs['out']}"
+        elif obs["out"] is not None and not drv["covered"]:
+            spec_ok, detail = False, f"an input fragment is not inside any merged hit of its profile: {obs['out']}"
         if not corr and not detail:
             detail = f"model {drv['model']} vs implementation {obs['out']}"
         return Judgement(corr, spec_ok, nontrivial=bool(drv["nontrivial"]),
